@@ -15,6 +15,8 @@ for d in sorted(glob.glob(os.path.join(os.path.dirname(os.path.dirname(os.path.a
     what = m['summary'].split('. ')[0][:150]
     status = ('**caught**' + (' (by proof only: its demo no longer fails on the current tree)' if m.get('no_longer_manifests') else '')) if ev.get('detected') \
         else ('not reproducible on the current tree' if m.get('no_longer_manifests') else 'MISSED')
+    if ev.get('tests_pass_with') is False:
+        status += ' (the repository\'s own tests also fail on it)'
     rows.append('| %s | %s | %s | %s |' % (name, what.replace('|', '/'), status, '; '.join(by).replace('|', '/') or '-'))
 print('| change | what it does | result | failed obligation(s) |')
 print('|---|---|---|---|')
